@@ -27,10 +27,11 @@ type State struct {
 	Defers       []deferred
 	Ghost        map[string]Term
 	Base         string // generation of lazily created map/ghost symbols (changes at a full havoc)
+	HeadSt       *State // the state at the last loop head crossed (nil outside loops): loophead(e)
 }
 
 func (s *State) Clone() *State {
-	n := &State{Reach: s.Reach, Frontier: s.Frontier, IterFrontier: s.IterFrontier, Base: s.Base,
+	n := &State{Reach: s.Reach, Frontier: s.Frontier, IterFrontier: s.IterFrontier, Base: s.Base, HeadSt: s.HeadSt,
 		Cells: make(map[*ssa.Alloc]Value, len(s.Cells)), Heaps: make(map[Sort]Term, len(s.Heaps)),
 		MapDom: make(map[Sort]Term, len(s.MapDom)), MapVal: make(map[string]Term, len(s.MapVal)),
 		Ghost: make(map[string]Term, len(s.Ghost))}
@@ -238,6 +239,12 @@ func (x *Exec) merge(edges []edge) *State {
 	}
 	n.Frontier = x.mergeTerm("frontier", edges, func(s *State) Term { return s.Frontier })
 	n.IterFrontier = x.mergeTerm("iterfrontier", edges, func(s *State) Term { return s.IterFrontier })
+	n.HeadSt = edges[0].st.HeadSt
+	for _, e := range edges {
+		if e.st.HeadSt != n.HeadSt {
+			n.HeadSt = nil // paths from different iterations/loops: no common loop-head state
+		}
+	}
 	// defers: a defer statement executed on only some of the merging paths
 	// becomes conditional (its guard says on which paths it was registered)
 	var order []*ssa.Defer
